@@ -63,23 +63,23 @@ HARNESSES = [
     desc='tbb::mutex, 2 lockers + 1 initial holder: notify_one wakes one sleeper, the other is woken by the next unlock',
     bounds={'threads': 3, 'free_rounds': 1, 'forced_rounds': 2, 'unroll': 1}),
   H(name='addr_rw_2t', unit='rw2', harness='h_rw.c', defines={'NT': 2, 'ROUNDS': 2}, tiers=['thorough'],
-    scenarios=[{'OP0': 1, 'OP1': 4}, {'OP0': 0, 'OP1': 4}, {'OP0': 1, 'OP1': 5}, {'OP0': 2, 'OP1': 5}, {'OP0': 0, 'OP1': 3}], timeout=3600,
+    scenarios=[{'OP0': 1, 'OP1': 4}, {'OP0': 0, 'OP1': 4}, {'OP0': 1, 'OP1': 5}, {'OP0': 0, 'OP1': 3}], timeout=7200,
     desc='tbb::rw_mutex through the REAL address_waiter.cpp: roles 0 reader, 1 writer, 2 reader->upgrade, 3 writer->downgrade, 4/5 thread starts as '
          'writer/reader and releases. Reader/writer exclusion, atomic-upgrade truthfulness, no lost wake-up (WRITER_PENDING / context-filtered notify)',
     bounds={'threads': 2, 'free_rounds': 2, 'forced_rounds': 2, 'unroll': 1}),
   # ---------------- serializer: worker-demand aggregator
   H(name='serializer_2u', unit='ser2', harness='h_ser.c', defines={'NU': 2, 'ROUNDS': 2, 'SER_WAIT_CLOSURE': SC}, scenarios=[{}], timeout=600,
-    thorough_override=dict(defines={'NU': 2, 'ROUNDS': 3, 'DMAX': 7, 'LMAX': 8, 'SER_WAIT_CLOSURE': SC}, timeout=1800),
+    thorough_override=dict(defines={'NU': 2, 'ROUNDS': 3, 'DMAX': 5, 'LMAX': 6, 'SER_WAIT_CLOSURE': SC}, timeout=5400),
     desc='thread_request_serializer::update by 2 threads with symbolic deltas: no request lost or duplicated (total == sum, pending word idle), '
          'estimate handed to thread_dispatcher == min(soft_limit, total), adjust_job_count_estimate only under the mutex',
-    bounds={'threads': 2, 'free_rounds': '2 quick / 3 thorough', 'forced_rounds': 2, 'delta_range': '[-3,3], limit 0..4 quick / [-7,7], 0..8 thorough'}),
+    bounds={'threads': 2, 'free_rounds': '2 quick / 3 thorough', 'forced_rounds': 2, 'delta_range': '[-3,3], limit 0..4 quick / [-5,5], 0..6 thorough'}),
   H(name='serializer_2u1l', unit='ser2l', harness='h_ser.c', defines={'NU': 2, 'LIMTHR': 1, 'ROUNDS': 1, 'SER_WAIT_CLOSURE': SC}, scenarios=[{}], timeout=900,
     thorough_override=dict(defines={'NU': 2, 'LIMTHR': 1, 'ROUNDS': 2, 'SER_WAIT_CLOSURE': SC}, timeout=2400),
     desc='2 updaters + 1 thread changing the soft limit (set_active_num_workers, symbolic new limit) concurrently',
     bounds={'threads': 3, 'free_rounds': '1 quick / 2 thorough', 'forced_rounds': 2, 'delta_range': '[-3,3], limits 0..4'}),
   H(name='serializer_3u', unit='ser3', harness='h_ser.c', defines={'NU': 3, 'ROUNDS': 1, 'DMAX': 2, 'LMAX': 2, 'SER_WAIT_CLOSURE': SC}, scenarios=[{}], timeout=900,
-    thorough_override=dict(defines={'NU': 3, 'ROUNDS': 2, 'SER_WAIT_CLOSURE': SC}, timeout=3600),
-    desc='3 concurrent updaters', bounds={'threads': 3, 'free_rounds': '1 quick / 2 thorough', 'forced_rounds': 2, 'delta_range': '[-2,2], limit 0..2 quick / [-3,3], 0..4 thorough'}),
+    thorough_override=dict(defines={'NU': 3, 'ROUNDS': 2, 'DMAX': 2, 'LMAX': 2, 'SER_WAIT_CLOSURE': SC}, timeout=5400),
+    desc='3 concurrent updaters', bounds={'threads': 3, 'free_rounds': '1 quick / 2 thorough', 'forced_rounds': 2, 'delta_range': '[-2,2], limit 0..2'}),
   # ---------------- proxy: mandatory concurrency (enqueue while the soft limit is 0)
   H(name='proxy_2t', unit='prx2', harness='h_proxy.c', defines={'NT': 2, 'ROUNDS': 2, 'SER_WAIT_CLOSURE': SC},
     scenarios=[{'PRE': 0, 'OP0': 0, 'OP1': 0}, {'PRE': 1, 'OP0': 0, 'OP1': 1}, {'PRE': 2, 'OP0': 1, 'OP1': 1},
